@@ -104,6 +104,25 @@ func checkWriteTrace(ev []fault.Event, path string, attrs uint32, value []byte) 
 		desc = append(desc, e.String())
 	}
 	tr := strings.Join(desc, " · ")
+	// Read-only looks at the SAME file (stat, a read-only open and its close — e.g. an
+	// immutable-flag probe routed through the filesystem) are not writes and touch
+	// nothing else: they are tolerated, as the strace oracle tolerates the legacy probe.
+	ro := map[int]bool{}
+	var kept []fault.Event
+	for _, e := range ev {
+		readOnlyOpen := (e.Op == "Open") || (e.Op == "OpenFile" && e.Flag&(os.O_WRONLY|os.O_RDWR|os.O_CREATE|os.O_TRUNC|os.O_APPEND) == 0)
+		switch {
+		case e.Name != path:
+			kept = append(kept, e)
+		case readOnlyOpen:
+			ro[e.Handle] = true
+		case e.Op == "Stat":
+		case e.Handle != 0 && ro[e.Handle] && (e.Op == "Close" || e.Op == "FStat"):
+		default:
+			kept = append(kept, e)
+		}
+	}
+	ev = kept
 	for _, e := range ev {
 		nm := e.Name
 		if nm != path {
